@@ -243,6 +243,11 @@ def run(F, R):
         r4 = reach(Sr, [Sr.root.entry], cut_nodes=ucr)
         R.check("C04-R4", "idle-only-after-check", not any(x in r4 for x in idle), "Idle only after a check", "Idle reachable before any check result")
 
+    # ---------------------------------------------------------------- lock discipline (shared engine va/locks.py)
+    R.rule("C04-R5", "a check always reaches its result: no path of the check takes a mutex while already holding a guard of the same kind (the async mutex is not re-entrant), and the lock order is uniform")
+    from .. import locks as _locks
+    _locks.check(R, "C04-R5", sm.w, [sm.c], floor_regions=12)
+
 
 def _edgekey(S, a, b):
     nd = S.nodes[a]
